@@ -165,16 +165,4 @@ def WithinHalfUnit (s : List Char) (p : Int) (v w : Rat) : Prop :=
   | none => w = v
   | some L => v - (1 / 2) * (10 : Rat) ^ (L - p + 1) ≤ w ∧ w ≤ v + (1 / 2) * (10 : Rat) ^ (L - p + 1)
 
-/-! ## known findings -/
-
-/-- trigger of the known findings K-C08-1/2: a precision is applied (`0 < prec`) to a lexeme whose
-    exponent is within `length + 4` of the int64 range.  There the Go code adds digit counts to
-    `origExp` with wrap-around, or leaves through the exponent-overflow exit after the precision branch
-    has already incremented a digit in place. -/
-def trigExpNear (s : List Char) (prec : Int) : Bool :=
-  decide (0 < prec) &&
-    match parse s with
-    | some p => decide (9223372036854775808 ≤ p.exp.natAbs + s.length + 4)
-    | none => false
-
 end Verif.Spec.Num
